@@ -32,6 +32,11 @@ CLAIMED = {
         note=PROOF_NOTE + "keys are modelled as segment lists (no '.' inside a queried name); the scope-resolution gate is an input flag here (C01/C07).",
         technique="Lean 4 refinement proof trie-walk = prefix specification (C06_find via fieldAt_insertSegs / fieldAt_fold / walkTree_eq) + correspondence with find_global and the lint",
         design="§4 C06"),
+    "C07": dict(
+        text="Lean 4: every modelled library lint reaches the library only through the `resolved` flag of the use's first identifier: a call statement whose name is script-bound yields no must_use diagnostic and the diagnostics depend on the program only through the call statements and those flags (C07_must_use_inside, C07_must_use_outside); a locally bound root silences field access / assignment checks for every library and path (C07_access_inside). That `resolved` agrees with Lua's scoping is C01's pending resolution statement. Checked on the real code by 26 use snippets x 13 re-binding constructs placed inside, after, before and beside the binding's scope, each compared with a fresh-name twin.",
+        note=PROOF_NOTE + "PARTIAL: the deprecated and call-check lints are modelled up to their gate only; resolution equivalence pending (C01).",
+        technique="Lean 4 gate theorems over the scope/must_use/access models + binding-vs-fresh-name twin runs of the real Checker",
+        design="§4 C07"),
     "C08": dict(
         text="Lean 4 model of comment parsing, comment claiming and the push/pop filter machine with an independent specification (innermost covering filter wins, then global, else unchanged). Proved for all inputs: diagnostics of lints no filter names are untouched for every filter family (C08_others_untouched), a file without accepted filters is returned unchanged, the most recent matching configuration decides and inner configurations shadow outer ones. The full `machine = specification for laminar families` statement is not yet a theorem (stated in Props/C08.lean); it is checked three-way (implementation / model / specification) on every generated program.",
         note=PROOF_NOTE + "PARTIAL: full machine-equals-specification theorem pending; visitor order and str::lines are taken from the implementation via hooks.",
